@@ -121,6 +121,24 @@ theorem aipsw_fit_generated (generalize hasIptw : Bool) (l : List (Row F)) (hw :
   cases generalize <;> cases hasIptw <;>
     simp [Gen.aipsw_fit, ω, add_comm]
 
+/-- **Tie to the source (IPSW).**  The definition regenerated from the text of `IPSW.fit` returns the difference
+    and ratio of the model's two arm means `ipsw` (weights `ipsw·iptw`, times the frequency weight when given). -/
+theorem ipsw_fit_generated (hasWeight hasIptw : Bool) (l : List (Row F)) (hw : hasWeight = false → ∀ r ∈ l, r.w = 1)
+    (sw tw : Row F → F) :
+    let ω : Row F → F := fun r => if hasIptw then sw r * tw r else sw r
+    Gen.ipsw_fit hasWeight hasIptw l sw tw = (ipsw l ω true - ipsw l ω false, ipsw l ω true / ipsw l ω false) := by
+  intro ω
+  rw [ipsw_arm_eq l ω true, ipsw_arm_eq l ω false]
+  cases hasWeight
+  · have hw' := hw rfl
+    have e : ∀ (a : Bool) (f g : Row F → F), (∀ r ∈ l, f r = g r) →
+        sumBy (fun r => if (r.obs = true ∧ r.a = a) then f r else 0) l
+          = sumBy (fun r => if (r.obs = true ∧ r.a = a) then g r else 0) l := by
+      intro a f g h; apply sumBy_congr; intro r hr; rw [h r hr]
+    cases hasIptw <;> simp only [Gen.ipsw_fit, ω] <;> simp <;> constructor <;> congr 1 <;> congr 1 <;>
+      apply sumBy_congr <;> intro r hr <;> simp [hw' r hr]
+  · cases hasIptw <;> simp [Gen.ipsw_fit, ω]
+
 /-- the risk difference and ratio are the difference and ratio of the two standardized risks -/
 theorem rd_rr_def (l : List (Row F)) (S : List Nat) (hS : Strata l S) (hpos : Positivity l S)
     (generalize : Bool) (Q : Nat → Bool → F) (hQ : OutFit l S Q) :
